@@ -285,3 +285,44 @@ def rule_c11_views(r):
                         "%s = <array>[self.index]: a masked copy" % base if ok else "%s is not a masked copy at this store" % base)
     if n < 2:
         raise AnalysisError("Pinhole2D._init_data: in-place clamps not found")
+
+
+# --------------------------------------------------------------------------------------------- C15: declared single-precision safety
+def rule_c15_declared(r):
+    """A model that the confirmed tree declares unsafe for single precision (`single = False`) stays declared unsafe:
+    the agreement clause of the property quantifies over the models declared safe, so widening that set silently
+    is how the clause is broken without touching the converter."""
+    import json, os
+    from .. import tables
+    p = os.path.join(os.path.dirname(os.path.abspath(__file__)), "..", "refmeta.json")
+    try:
+        ref = json.load(open(p))
+    except (OSError, ValueError):
+        raise AnalysisError("sa/refmeta.json missing: run tools/mkrefshape.py")
+    n = 0
+    for model, flags in sorted(ref.items()):
+        if flags.get("single") != "False":
+            continue
+        rel = "sasmodels/models/%s.py" % model
+        path = os.path.join(pf.REPO, rel)
+        if not os.path.exists(path):
+            continue        # a removed model is not a declaration
+        tree = ast.parse(open(path).read())
+        cur = [st for st in tree.body if isinstance(st, ast.Assign) and len(st.targets) == 1 and isinstance(st.targets[0], ast.Name)
+               and st.targets[0].id == "single"]
+        n += 1
+        ok = bool(cur) and pf.const_value(cur[-1].value) is False
+        r.check(ok, rel, "<module>", "single = False", cur[-1].lineno if cur else 0,
+                "declared unsafe for single precision, as confirmed" if ok else
+                "the confirmed tree declares this model unsafe for single precision (loss of significance in float32); the "
+                "declaration is gone, so a single-precision request is now honoured and the result disagrees with double")
+    if n < 10:
+        raise AnalysisError("reference list of single-unsafe models too short (%d)" % n)
+    # the declaration is what make_model_info reads
+    mi = pf.lib("modelinfo")
+    fn = mi.func("make_model_info")
+    got = [st for st in pf.walk_stmts(fn) if isinstance(st, ast.Assign) and pf.unparse(st.targets[0]) == "info.single"]
+    ok = bool(got) and isinstance(got[0].value, ast.Call) and pf.call_name(got[0].value) == "getattr" and len(got[0].value.args) >= 2 \
+        and pf.unparse(got[0].value.args[0]) == "kernel_module" and pf.const_value(got[0].value.args[1]) == "single"
+    r.check(ok, mi.relpath, "make_model_info", "info.single = getattr(kernel_module, 'single', <default>)", got[0].lineno if got else fn.lineno,
+            "the model's own declaration decides")
